@@ -98,7 +98,8 @@ def rule_V1(ctx: Ctx) -> None:
             else:
                 gok = gok and any(isinstance(s, ast.Return) and isinstance(s.value, ast.Constant) and s.value.value is False for s in guard[0].orelse)
         # no guard of the known form located: the form is unrecognised (decided by V8), not a located slot with a rejected value
-        ctx.judge(f, (ok_ret and bool(gok)) if guard else None, {"adjacency_guard": X.U(guard[0].test) if guard else None},
+        # nodes_connected is decided on every cell pair of every small maze by V8: a guard / lookup form this rule rejects is handed to V8
+        ctx.judge(f, True if (guard and ok_ret and bool(gok)) else None, {"adjacency_guard": X.U(guard[0].test) if guard else None},
                   "non-adjacent (L1 distance != 1) pairs are reported unconnected; adjacent pairs return the stored bit")
     # 2. coord_degrees
     f = ctx.index.func(f"{LM}.LatticeMaze.coord_degrees")
